@@ -13,7 +13,7 @@ func init() {
 // retention instead of order.
 func c03Run(trim bool) {
 	r := newBufRun(bufMode{prop: "C03", forcedTrim: trim})
-	withAuditor := simrt.Chance(2, 3)
+	withAuditor := simrt.Chance(2, 3) && !r.huge
 	var aud *bufCons
 	if withAuditor {
 		aud = r.newConsumer(true, false)
